@@ -1,6 +1,8 @@
 """C11 — per-node size and depth metadata matches the actual program structure."""
 from __future__ import annotations
 
+import json
+
 from harness import core, flow, grammars
 from harness.core import cz, cn, clist
 from harness.props import synth_common as sy
@@ -26,10 +28,7 @@ def to_coq(c, o):
     return f"KLab {grammars.c_decl(c['decl'])} {grammars.c_value(res['ok'])} {labs}"
 
 
-def gen(seed, tier):
-    r = flow.rng(seed, "c11")
-    big = tier == "thorough"
-    cases = []
+def family():
     S = lambda i: ["sym", i]  # noqa: E731
     INT, BOOL = ["base", "int"], ["base", "bool"]
     A = lambda parent=None, deco=False: {"parent": parent, "abs": "deco" if deco else "abc", "fields": [], "weight": None}  # noqa: E731
@@ -42,6 +41,49 @@ def gen(seed, tier):
         fam.append(H([A(), A(0, True), A(1, True), P(2), P(2, S(0)), P(1, S(1), S(2)), P(0, S(0), INT)], xd))             # multi-level abstract hierarchy
         fam.append(H([A(), P(0), P(0, ["tuple", [S(0), INT]]), P(0, ["tuple", [BOOL, INT]], S(0))], xd))                  # nodes inside tuples (F40)
         fam.append(H([A(), P(0), P(0, ["union", [S(0), INT]], ["list", INT])], xd))
+    return fam
+
+
+def gen_offspring(seed, tier):
+    """programs reached by sequences of mutations and crossovers of the tree representation (reused subtrees must not carry stale values)"""
+    from harness.props import rep_common as rc
+    r = flow.rng(seed, "c11o")
+    big = tier == "thorough"
+    cases = []
+    for d in family():
+        for dec in (["max", 4], ["pi", 5], ["full", 3]):
+            for _ in range(1 if not big else 4):
+                cases.append({"op": "rep", "decl": d, "rep": {"kind": "tree", "decider": dec}, "seed": r.randrange(10**6), "ops": rc.breeding_ops(5 if not big else 10)})
+                cases.append({"op": "rep", "decl": d, "rep": {"kind": "tree", "decider": dec}, "seed": r.randrange(10**6), "ops": rc.gen_ops(r, 8)})
+    return cases
+
+
+def offspring_entries(cases, res):
+    """(case, observation in the shape of a creation, Coq term) for every tree the operations returned"""
+    out = []
+    for c, o in zip(cases, res):
+        oo = o.get("ok", o)
+        if oo.get("phase") != "ops":
+            continue
+        for i, rec in enumerate(oo["ops"]):
+            ok = (rec.get("res") or {}).get("ok")
+            if not ok or rec["op"][0] not in ("create", "mutate", "cross"):
+                continue
+            trees = [(ok["geno"], ok["labels"])] if rec["op"][0] != "cross" else list(zip(ok["genos"], ok["labels"]))
+            for geno, labels in trees:
+                if geno[0] != "tree" or labels is None:
+                    continue
+                cc = {"op": "rep", "decl": c["decl"], "rep": c["rep"], "seed": c["seed"], "ops": c["ops"], "index": i, "kind": rec["op"][0]}
+                obs = {"ok": {"res": {"ok": geno[1]}, "labels": labels}}
+                out.append((cc, obs, to_coq(cc, obs)))
+    return out
+
+
+def gen(seed, tier):
+    r = flow.rng(seed, "c11")
+    big = tier == "thorough"
+    cases = []
+    fam = family()
     for d in fam:
         for src in sy.gen_sources(r, n_record=4 if not big else 12, extremes=("max", "alt"), ge=2):
             for dec in (["max", 4], ["pi", 5]):
@@ -61,19 +103,38 @@ def gen(seed, tier):
 
 def describe(c, o):
     oo = o.get("ok", o)
+    if c.get("op") == "rep":
+        return ("classes:\n" + grammars.source(c["decl"])[len(grammars.HEADER):] + f"expansion_depthing={c['decl']['xdepth']} tree representation {c['rep']} shared seed={c['seed']} "
+                f"operation #{c['index']} ({c['kind']}) of {c['ops']} returned {json.dumps(oo['res']['ok'])[:500]} labels(pre-order: nodes, distance, weighted, types)={str(oo.get('labels'))[:500]}")
     return sy.describe(c, o) + f" labels(pre-order: nodes, distance, weighted, types)={str(oo.get('labels'))[:500]}"
 
 
 def run(tier, seed, replay=None):
     chk = core.Check("C11", tier, seed)
     proof = core.proof_step("C11", thorough=(tier == "thorough"))
-    cases = [replay["replay"]["case"]] if replay else gen(seed, tier)
-    res = core.run_impl("synth", {"cases": cases})
+    cases = [] if (replay and replay["replay"].get("case", {}).get("op") == "rep") else [replay["replay"]["case"]] if replay else gen(seed, tier)
+    res = core.run_impl("synth", {"cases": cases}) if cases else []
     if isinstance(res, dict) and res.get("driver_failed"):
         chk.violation("correspondence", "the implementation could not be driven: " + res["stderr"][-600:], {"component": "labels", "stderr": res["stderr"]}, False)
         return chk.finish(proof, TRUSTED, {"evaluations": 0, "distinct_nontrivial": 0}, "see DESIGN")
     pairs = [(c, o, to_coq(c, o)) for c, o in zip(cases, res)]
     used = [(c, o, t) for c, o, t in pairs if t is not None]
+    # programs produced by mutation and crossover (and the creations in between), every node observed right after the operation
+    if replay and replay["replay"].get("case", {}).get("op") == "rep":
+        ocases, used = [dict(replay["replay"]["case"])], []
+    else:
+        ocases = [] if replay else gen_offspring(seed, tier)
+    n_off = 0
+    if ocases:
+        ores = core.run_impl("reps", {"cases": ocases}, timeout=1500)
+        if isinstance(ores, dict) and ores.get("driver_failed"):
+            chk.violation("correspondence", "the tree representation could not be driven: " + ores["stderr"][-600:], {"component": "labels of offspring", "stderr": ores["stderr"]}, False)
+        else:
+            off = offspring_entries(ocases, ores)
+            if replay:
+                off = [e for e in off if e[0]["index"] == replay["replay"]["case"].get("index")] or off
+            n_off = len(off)
+            used += off
     known = {k["id"]: k for k in core.known_findings("C11")}
     lists = core.run_cases("C11", IMPORTS, [t for _, _, t in used], run_fn="run_c11", chunk=60, nlists=3)
     corr, orac, f40 = lists
@@ -105,7 +166,7 @@ def run(tier, seed, replay=None):
         sizes[b] = sizes.get(b, 0) + 1
     chk.samples = [{"source": grammars.source(c["decl"])[len(grammars.HEADER):], "program": o["ok"]["res"], "labels": o["ok"]["labels"][:6]} for c, o, t in used[:: max(1, len(used) // 3)]][:3]
     cov = {
-        "evaluations": len(cases), "programs_with_labels_compared": len(used),
+        "evaluations": len(cases) + n_off, "programs_with_labels_compared": len(used), "offspring_and_intermediate_programs": n_off,
         "distinct_nontrivial": len({t for c, o, t in used if len(o["ok"]["labels"]) >= 3}),
         "traces_validated_against_impl": len(used),
         "correspondence_mismatches": len(corr), "oracle_failures": len(orac), "known_region_hits": {"F40": len(f40)},
